@@ -122,8 +122,11 @@ func (q *Queue[T]) doAdd(item T) error {
 		q.nempty.Signal()
 	}
 
-	// for the iterator, signal for any updates
-	q.nupdates.Signal()
+	// wake every waiter on nupdates: the condition is shared by
+	// iterators (waiting for a new item) and blocked producers
+	// (waiting for capacity), and a single Signal may be consumed
+	// by a producer that goes straight back to sleep.
+	q.nupdates.Broadcast()
 
 	return nil
 }
